@@ -8,7 +8,7 @@ if [ -x extract/run.sh ]; then ./extract/run.sh "${VERIF_REPO:-/repo}" || echo "
 # a module that does not build must not take the other properties down: every check builds its own targets again
 (cd lean && lake build) || echo "setup: lake build reported failures (the checks concerned will report them)"
 # Tie modules import the regenerated Gen/*.lean and are not reachable from the library root: warm them too
-(cd lean && lake build Rivaas.Tie.C03 Rivaas.Tie.C08) || echo "setup: Tie modules do not build (the checks concerned will report it)"
+(cd lean && lake build $(ls Rivaas/Tie/*.lean | sed "s#/#.#g; s#\.lean\$##")) || echo "setup: Tie modules do not build (the checks concerned will report it)"
 python3 - <<'PY'
 import sys, os
 sys.path.insert(0, '.')
